@@ -31,7 +31,8 @@ mod verif_state {
         let h: SingletonHolder<u8> = SingletonHolder::new();
         ghost::reset(false);
         h.set(7);
-        assert!(ghost::i_won(), "[C18] without competitors the first set wins");
+        // (checked on one side of an arbitrary branch so that the execution is not cut off behind it)
+        if kani::any::<bool>() { assert!(ghost::i_won(), "[C18] without competitors the first set wins"); }
         let p1 = h.get().map(|a| Arc::as_ptr(&a));
         h.set(9);
         let g = h.get();
